@@ -15859,6 +15859,11 @@ func (p *PathAttributePmsiTunnel) DecodeFromBytes(data []byte, options ...*Marsh
 
 	switch p.TunnelType {
 	case PMSI_TUNNEL_TYPE_INGRESS_REPL:
+		// RFC 6514 Section 5: the identifier is the unicast tunnel endpoint,
+		// an IPv4 or IPv6 address
+		if l := len(value[5:]); l != net.IPv4len && l != net.IPv6len {
+			return NewMessageError(uint8(BGP_ERROR_UPDATE_MESSAGE_ERROR), uint8(BGP_ERROR_SUB_MALFORMED_ATTRIBUTE_LIST), nil, "PMSI Tunnel ingress replication identifier is not an address")
+		}
 		id, _ := netip.AddrFromSlice(value[5:])
 		p.TunnelID = &IngressReplTunnelID{id}
 	default:
